@@ -88,6 +88,9 @@ CATALOGS = {
                                              {'name': 'proj', 'type': 'project'}], default_namespace='int2',
                                predictor_metadata=[{'name': 'pred', 'integration_name': 'mindsdb'},
                                                    {'name': 'pred2', 'integration_name': 'proj', 'to_predict': 'y'}]),
+    # list-form predictor records without integration_name: the models live in predictor_namespace
+    'list-no-integration-name': dict(integrations=['int1', 'int2'], predictor_namespace='mindsdb', default_namespace='mindsdb',
+                                     predictor_metadata=[{'name': 'pred'}, {'name': 'pred2', 'integration_name': 'proj', 'to_predict': ['y']}]),
     'api': dict(integrations=[{'name': 'int1', 'type': 'data', 'class_type': 'api'}, {'name': 'int2', 'type': 'data'}],
                 default_namespace='mindsdb',
                 predictor_metadata=[{'name': 'pred', 'integration_name': 'mindsdb'},
@@ -197,6 +200,14 @@ def generated():
                      'order by t1.a limit 2', 'order by 2 limit 1 offset 1', 'group by t1.a order by count(*)',
                      'group by t1.a having count(*) > 1', 'order by case when t1.a > 1 then 1 else 0 end', 'limit 0', 'order by t1.a nulls first'):
             q.append('select t1.a, t1.b from %s %s' % (frm, tail))
+    # a model with partition_size followed by sub-selects / CTE references whose alias equals the inner table or CTE name
+    q += ['select * from int2.t2 as a join mindsdb.pred as p join (select a from int1.t1 limit 3) as t1 using partition_size = 10',
+          'select * from int2.t2 as a join mindsdb.pred as p join (select a from int1.t1 limit 3) as zz using partition_size = 10',
+          'with c as (select * from int2.t2) select * from int1.t1 as a join mindsdb.pred as p join c using partition_size = 2',
+          'with c as (select * from int2.t2) select * from int1.t1 as a join mindsdb.pred as p join c as c on c.a = a.a using partition_size = 2',
+          'select * from int2.t2 as a join mindsdb.pred as p join (select a from int1.t1) as t1 on t1.a = a.a join int2.t5 as w on w.a = a.a using partition_size = 3',
+          'select * from mindsdb.pred where a = 1', 'insert into int1.t9 (a) select y from mindsdb.pred where a = 1',
+          'select * from int1.t1 where a in (select y from mindsdb.pred where a = 1)', 'select * from int1.t1 as t join mindsdb.tp as m where t.ts > latest']
     # shapes that earlier rounds of seeding found to end in internal errors on the unmodified tree (kept as regression inputs)
     q += ['with a as (select * from int1.t1 as t1 join mindsdb.pred as m) select * from a where a.x in (select x from a)',
           'select * from (select * from int1.t1 as t1 join int2.t2 as t2 on t1.a = t2.a) as s join mindsdb.tp as m',
